@@ -6,7 +6,7 @@ PATCH=$(readlink -f "$1"); CHECK=$2; TIER=${3:-quick}
 T=/tmp/tryseed.$$
 git -C /repo worktree add -q --detach $T/repo HEAD || exit 2
 ( cd $T/repo && git apply "$PATCH" ) || { echo "patch does not apply"; git -C /repo worktree remove --force $T/repo; rm -rf $T; exit 2; }
-mkdir -p $T/work/bin; cp /verif/.work/bin/instr $T/work/bin/ 2>/dev/null
+mkdir -p $T/work/bin; cp -p /verif/.work/bin/instr $T/work/bin/ 2>/dev/null
 cd /verif && VERIF_REPO=$T/repo VERIF_WORK=$T/work VERIF_EVIDENCE=$T/evidence python3 checks/$CHECK $TIER 2>&1 | grep "VIOLATION\|sig=\|ENGINE\|KNOWN" | cut -c1-260
 echo "check exit=${PIPESTATUS[0]}"
 git -C /repo worktree remove --force $T/repo; git -C /repo worktree prune; rm -rf $T
